@@ -109,8 +109,9 @@ Section Sound.
   (* C17: soundness of the checker, for every program and every solution *)
   Theorem check_objects_sound : check_objects prog sol = true -> objects prog sol.
   Proof.
-    intros H. unfold check_objects in H. apply andb_true_iff in H as [H Hd]. apply andb_true_iff in H as [Hc Hf].
-    split; [|split].
+    intros H. unfold check_objects in H. apply andb_true_iff in H as [H Hd]. apply andb_true_iff in H as [H Ha].
+    apply andb_true_iff in H as [Hc Hf].
+    split; [|split; [|split]].
     - intros o Ho c ce Hin. unfold check_ctors in Hc. rewrite forallb_forall in Hc. specialize (Hc o Ho).
       rewrite forallb_forall in Hc. specialize (Hc (c, ce) Hin). apply ctor_okb_sound. exact Hc.
     - intros r c d f t Hr Hsub Hd' Hfld Hen Hno Hc2. unfold check_field_vars in Hf. rewrite forallb_forall in Hf. specialize (Hf r Hr).
@@ -122,6 +123,12 @@ Section Sound.
       { destruct (existsb (fun cd => match assoc f (cd_inits cd) with Some _ => true | None => false end) (ctors_of d)) eqn:E; [|reflexivity].
         apply existsb_exists in E as [cd [Hcd E]]. rewrite (Hno cd Hcd) in E. discriminate. }
       rewrite Hex in Hf. simpl in Hf. apply has_var_recb_sound. exact Hf.
+    - intros ar Hin Hst. unfold check_arg_types in Ha. rewrite forallb_forall in Ha. specialize (Ha ar Hin).
+      destruct (a_state ar) eqn:Es; try (exfalso; apply Hst; reflexivity);
+        (destruct (rule_chain (pfuel prog) prog (a_pred ar)) as [ch|] eqn:Ech; [|discriminate];
+         exists (pfuel prog), ch; split; [exact Ech|]; intros x t v Hxt Hv;
+         rewrite forallb_forall in Ha; specialize (Ha (x, t) Hxt); simpl in Ha; rewrite Hv in Ha;
+         apply has_typeb_sound; exact Ha).
     - intros vr Hvr. unfold check_domains in Hd. rewrite forallb_forall in Hd. specialize (Hd vr Hvr).
       apply existsb_exists in Hd as [t [Ht Hdom]].
       exists t. split; [apply declared_types_sound; exact Ht | apply dom_okb_sound; exact Hdom].
